@@ -43,6 +43,16 @@ func c18PowArgs(lsr sdk.Dec, secs int64) (x, y float64) {
 	return
 }
 
+// c18Mix scrambles (seed, stream) into a start value for NewRng. NewRng(k) and NewRng(k+1) are the SAME splitmix
+// stream shifted by one draw (state = k*gamma + c, step = gamma), so nearby seeds would re-synchronise after a few
+// variable-length iterations and generate the same cases; scrambled seeds start at unrelated points of the cycle.
+func c18Mix(a, b uint64) uint64 {
+	z := a*0x9E3779B97F4A7C15 ^ (b+1)*0xC2B2AE3D27D4EB4F
+	z = (z ^ (z >> 30)) * 0xBF58476D1CE4E5B9
+	z = (z ^ (z >> 27)) * 0x94D049BB133111EB
+	return z ^ (z >> 31)
+}
+
 type c18App struct {
 	app *chain.App
 	ctx sdk.Context
@@ -153,7 +163,7 @@ type c18Fail struct {
 	s1, s2 int64
 }
 
-func c18ScanHyp(seedv uint64, n int) (counts map[string]int, fails map[string]int, witnesses []c18Fail) {
+func c18ScanHyp(seedv uint64, n int) (counts map[string]int, fails map[string]int, witnesses []c18Fail, maxDip uint64) {
 	workers := 8
 	counts = map[string]int{}
 	fails = map[string]int{}
@@ -163,10 +173,11 @@ func c18ScanHyp(seedv uint64, n int) (counts map[string]int, fails map[string]in
 		wg.Add(1)
 		go func(w int) {
 			defer wg.Done()
-			rng := NewRng(seedv*1000 + uint64(w) + 77)
+			rng := NewRng(c18Mix(seedv, uint64(1000+w)))
 			lc := map[string]int{}
 			lf := map[string]int{}
 			var lw []c18Fail
+			var ldip uint64
 			add := func(f c18Fail) {
 				lf[f.name]++
 				if lf[f.name] <= 3 {
@@ -196,8 +207,11 @@ func c18ScanHyp(seedv uint64, n int) (counts map[string]int, fails map[string]in
 				}
 				_, y2 := c18PowArgs(c18Dec(lsr), s+d)
 				lc["mono_time"]++
-				if math.Pow(x, y2) < p {
+				if q := math.Pow(x, y2); q < p {
 					add(c18Fail{"mono_time", lsr, nil, s, s + d})
+					if dd := math.Float64bits(p) - math.Float64bits(q); dd > ldip {
+						ldip = dd
+					}
 				}
 				// monotone in the 18-digit rate
 				dl := []int64{1, 100, 222, 400, 445, 1000, 100000}[rng.Intn(7)]
@@ -207,8 +221,11 @@ func c18ScanHyp(seedv uint64, n int) (counts map[string]int, fails map[string]in
 				lsr2 := new(big.Int).Add(lsr, big.NewInt(dl))
 				x2, _ := c18PowArgs(c18Dec(lsr2), s)
 				lc["mono_rate"]++
-				if math.Pow(x2, y) < p {
+				if q := math.Pow(x2, y); q < p {
 					add(c18Fail{"mono_rate", lsr, lsr2, s, 0})
+					if dd := math.Float64bits(p) - math.Float64bits(q); dd > ldip {
+						ldip = dd
+					}
 				}
 				// quasi-multiplicativity with slack 2^-40 (checked against the stricter 2^-41)
 				sb := c18Secs(rng)
@@ -230,6 +247,9 @@ func c18ScanHyp(seedv uint64, n int) (counts map[string]int, fails map[string]in
 				fails[k] += v
 			}
 			witnesses = append(witnesses, lw...)
+			if ldip > maxDip {
+				maxDip = ldip
+			}
 			mu.Unlock()
 		}(w)
 	}
@@ -244,7 +264,7 @@ func c18ScanHyp(seedv uint64, n int) (counts map[string]int, fails map[string]in
 func TestC18(t *testing.T) {
 	tr := OpenTrace(t, "c18.trace")
 	defer tr.Close(t)
-	rng := NewRng(seed())
+	rng := NewRng(c18Mix(seed(), 0))
 	app := chain.Setup(t, false)
 	base := app.BaseApp.NewContext(false, tmproto.Header{Height: 10, Time: time.Unix(c18Now, 0)})
 	a := &c18App{app: app, ctx: base}
@@ -276,7 +296,8 @@ func c18Float(t *testing.T, tr *Trace, rng *Rng, a *c18App) {
 
 	// --- scan of the hypotheses about math.Pow; every failing point is replayed through the real function
 	n := scale(3000000, 100000000)
-	counts, fails, wit := c18ScanHyp(seed(), n)
+	counts, fails, wit, maxDip := c18ScanHyp(seed(), n)
+	tr.Set("pow_largest_decrease_in_ulps", maxDip)
 	for _, k := range []string{"ge_one", "zero", "mono_time", "mono_rate", "submult"} {
 		tr.Line("acc.hyp", k, i64(int64(counts[k])), i64(int64(fails[k])))
 		tr.Set("pow_hypothesis:"+k, map[string]int{"points": counts[k], "failures": fails[k]})
